@@ -116,6 +116,9 @@ func checkC16(p *Prog, r *Report) {
 	ruleMSGP(p, r)
 	ruleCodec(p, r)
 	ruleOwnBytes(p, r)
+	ruleFixFit(p, r)
+	ruleUtSet(p, r)
+	r.Floor("UTSET", 6)
 	r.Floor("OWNBYTES", 10)
 	r.Floor("ENUMRT", 10)
 	r.Floor("MSGP", 20)
